@@ -184,21 +184,36 @@ func (vc *VC) isFifoChan(ch ssa.Value) bool {
 	return false
 }
 
-func (vc *VC) fifoFn() string {
-	if !vc.declared["fifo!log"] {
-		vc.declared["fifo!log"] = true
-		vc.decls = append(vc.decls, "(declare-fun fifo!log (Loc Int) Loc)")
-	}
+func (vc *VC) fifoFn() string { return vc.fifoFnFor(nil) }
+
+// fifoFnFor: the log function for channels whose element type is elem (one function per SMT sort).
+func (vc *VC) fifoFnFor(elem types.Type) string {
 	vc.heapKeySort("#fifo.sendn", types.Typ[types.Int])
 	vc.heapKeySort("#fifo.recvn", types.Typ[types.Int])
-	return "fifo!log"
+	sort := "Loc"
+	if elem != nil {
+		sort = vc.sortOf(elem)
+	}
+	name := "fifo!log_" + mangle(sort)
+	if !vc.declared[name] {
+		vc.declared[name] = true
+		vc.decls = append(vc.decls, fmt.Sprintf("(declare-fun %s (Loc Int) %s)", name, sort))
+	}
+	return name
+}
+
+func chanElem(ch ssa.Value) types.Type {
+	if ct, ok := ch.Type().Underlying().(*types.Chan); ok {
+		return ct.Elem()
+	}
+	return nil
 }
 
 func (vc *VC) fifoSend(ch ssa.Value, val TV, cond string, st *State) {
 	if !vc.isFifoChan(ch) {
 		return
 	}
-	f := vc.fifoFn()
+	f := vc.fifoFnFor(chanElem(ch))
 	I := types.Typ[types.Int]
 	c := vc.val(ch).S
 	n := vc.heapRead(st, "#fifo.sendn", I, c)
@@ -212,7 +227,7 @@ func (vc *VC) fifoRecv(ch ssa.Value, v TV, cond string, st *State) {
 	if !vc.isFifoChan(ch) {
 		return
 	}
-	f := vc.fifoFn()
+	f := vc.fifoFnFor(chanElem(ch))
 	I := types.Typ[types.Int]
 	c := vc.val(ch).S
 	n := vc.heapRead(st, "#fifo.recvn", I, c)
